@@ -144,6 +144,9 @@ class Fn:
         self.globals = opts.get("globals", {})
         self.notes = []
         self.statics = []
+        self.pidx = {}
+        self.alias_locals = set()
+        self.aliases = {}        # struct-pointer locals: name -> (struct parameter, member path); set by their (single) assignment `q = &(p->a.b)`
         self.rowsets = []        # members that are arrays of rows (List (List Int)), read-only
         self.loop_assigned = set()
         self.setters = []
@@ -243,7 +246,7 @@ class Fn:
             own = reg if reg in [lname(x) for x in self.plist] else None
             if nm in self.ptr_is_param_region or lname(nm) in self.local_regions:
                 return (self.owned(own, self.region, reg), "0", [], [])
-            return (self.owned(own, self.region, reg), "s.%s" % lname(nm), [], [])
+            return (self.owned(own, self.region, reg), "s.%s" % self.pix(nm), [], [])
         if k == "MemberExpr":
             return (self.member_region(n), "0", [], [])
         if k == "ArraySubscriptExpr" and ptr_elem(qt(n)) is not None:
@@ -294,20 +297,23 @@ class Fn:
             nm = sub["referencedDecl"]["name"]
             r, i, c, e = self.pexpr(sub)
             new = "(%s %s 1)" % (i, "+" if n["opcode"] == "++" else "-")
-            eff = Eff(("scalar", lname(nm)), new, lname(nm))
+            eff = Eff(("scalar", self.pix(nm)), new, self.pix(nm))
             if n.get("isPostfix"):
                 return (r, i, c, e + [eff])
             return (r, new, c, e + [eff])
         fail("%s: unsupported pointer expression %s" % (self.name, k))
 
     def member_chain(self, n):
-        """`p->a->b` / `p->a.b` -> ('p', ['a','b'])"""
+        """`p->a->b` / `p->a.b` -> ('p', ['a','b']);  through an alias local `q = &(p->a)`: `q->b` -> ('p', ['a','b'])"""
         path = []
         while n.get("kind") == "MemberExpr":
             path.append(n["name"])
             n = self.skip(n["inner"][0])
         if n.get("kind") == "DeclRefExpr" and n["referencedDecl"]["name"] in self.structs:
             return n["referencedDecl"]["name"], list(reversed(path))
+        if n.get("kind") == "DeclRefExpr" and n["referencedDecl"]["name"] in self.aliases:
+            p0, path0 = self.aliases[n["referencedDecl"]["name"]]
+            return p0, path0 + list(reversed(path))
         return None, None
 
     def member_region(self, m):
@@ -330,7 +336,7 @@ class Fn:
             if nm in self.ptr:
                 if nm in self.ptr_is_param_region or lname(nm) in self.local_regions:
                     fail("%s: assignment to array/pointer parameter %s" % (self.name, nm))
-                return ("scalar", lname(nm), "ptr")
+                return ("scalar", self.pix(nm), "ptr")
             if lname(nm) not in self.scalars:
                 fail("%s: unknown variable %s" % (self.name, nm))
             return ("scalar", lname(nm), ty)
@@ -372,6 +378,21 @@ class Fn:
                 return ("scalar", self.owned(p, self.scalar, "%s_%s" % (p, "_".join(path)), entry=True), ty)
             fail("%s: member access %s" % (self.name, fld))
         fail("%s: unsupported lvalue %s" % (self.name, k))
+
+    def pix(self, nm):
+        """state field holding the index of pointer variable `nm` (a moved pointer PARAMETER `p` is region `p` + index `p_i`)"""
+        return self.pidx.get(nm, lname(nm))
+
+    def use_io(self, which):
+        if which == "in":
+            if "io_in" not in self.regions:
+                self.owner = None
+                self.region("io_in")
+                self.scalar("io_pos", entry=True)
+        else:
+            if "io_out" not in self.regions:
+                self.owner = None
+                self.region("io_out")
 
     def rt(self, r):
         """Lean term of a region: a state field, or (read-only) one row of an array of rows `#field#index`"""
@@ -453,7 +474,17 @@ class Fn:
             if op in ("&&", "||", "<", "<=", ">", ">=", "==", "!="):
                 b, c, e = self.cond(n)
                 return "(if %s then 1 else 0)" % b, c, e
-            if op in (",", "="):
+            if op == "=":
+                # assignment used as a value: the value is the (converted) right-hand side, the store is a pending effect
+                a_, b_ = n["inner"]
+                if ptr_elem(qt(a_)) is not None:
+                    fail("%s: pointer assignment inside an expression" % self.name)
+                tv, cv, ev = self.rvalue(b_)
+                lv = self.lvalue(a_)
+                if lv[0] == "scalar":
+                    return tv, cv, ev + [Eff(lv, tv, lv[1])]
+                return tv, cv + lv[3], ev + lv[4] + [Eff(("elem", lv[1], lv[2]), tv, lv[1])]
+            if op == ",":
                 fail("%s: operator `%s` inside an expression" % (self.name, op))
             a, b = n["inner"]
             if op == "-" and ptr_elem(qt(a)) is not None and ptr_elem(qt(b)) is not None:
@@ -485,6 +516,48 @@ class Fn:
                     fail("%s: side effect in strlen argument" % self.name)
                 rest = "(%s.drop (Int.toNat (%s)))" % (self.rt(r), i)
                 return "(Int.ofNat (%s.takeWhile (· ≠ 0)).length)" % rest, c + ["0 ≤ %s ∧ (0 : Int) ∈ %s" % (i, rest)], []
+            if nm in self.opts.get("assume_calls", {}):
+                # a call whose effect is outside the modelled state and which is ASSUMED to return this value (trusted base)
+                note = "call of `%s` is assumed to return %s" % (nm, self.opts["assume_calls"][nm])
+                if note not in self.notes:
+                    self.notes.append(note)
+                return str(self.opts["assume_calls"][nm]), [], []
+            io = self.opts.get("io", {}).get(nm)
+            if io == "getc":
+                # next byte of the input stream, FAIL (-1) at its end; the stream position advances when a byte was delivered
+                self.use_io("in")
+                v = "(if s.io_pos < s.io_in.length then (s.io_in.getD (Int.toNat s.io_pos) 0) else -1)"
+                eff = Eff(("scalar", "io_pos"), "(if s.io_pos < s.io_in.length then s.io_pos + 1 else s.io_pos)", "io_pos")
+                return v, [], [eff]
+            if io == "putc":
+                # appends one byte to the output stream and returns it (the output never fails: assumption, C16 owns I/O failures)
+                self.use_io("out")
+                ct, cc, ce = self.rvalue(n["inner"][1])
+                if ce:
+                    fail("%s: side effect in %s argument" % (self.name, nm))
+                return "((%s) %% 256)" % ct, cc, [Eff(("whole", "io_out"), "(s.io_out ++ [(%s) %% 256])" % ct, "io_out")]
+            if io == "write":
+                # Hwrite(aid, n, ptr): appends n bytes to the output stream, returns n
+                self.use_io("out")
+                nt, nc, ne = self.rvalue(n["inner"][2])
+                rr, ri, rc, re_ = self.pexpr(n["inner"][3])
+                if ne or re_:
+                    fail("%s: side effect in %s arguments" % (self.name, nm))
+                chk = ["(0 : Int) ≤ %s" % nt, "0 ≤ %s ∧ %s + %s ≤ %s.length" % (ri, ri, nt, self.rt(rr))]
+                return nt, nc + rc + chk, [Eff(("whole", "io_out"), "(s.io_out ++ ((%s.drop (Int.toNat (%s))).take (Int.toNat (%s))))" % (self.rt(rr), ri, nt), "io_out")]
+            if io == "read":
+                # Hread(aid, n, ptr): delivers n bytes of the input stream, or FAIL (-1, nothing changes) when fewer are left
+                self.use_io("in")
+                nt, nc, ne = self.rvalue(n["inner"][2])
+                rr, ri, rc, re_ = self.pexpr(n["inner"][3])
+                if ne or re_:
+                    fail("%s: side effect in %s arguments" % (self.name, nm))
+                if rr.startswith("#") or rr.startswith("@"):
+                    fail("%s: %s into a read-only region" % (self.name, nm))
+                ok = "(s.io_pos + %s ≤ s.io_in.length)" % nt
+                chk = ["(0 : Int) ≤ %s" % nt, "0 ≤ %s ∧ %s + %s ≤ s.%s.length" % (ri, ri, nt, rr)]
+                new_reg = "(if %s then (s.%s.take (Int.toNat (%s))) ++ ((s.io_in.drop (Int.toNat s.io_pos)).take (Int.toNat (%s))) ++ (s.%s.drop (Int.toNat (%s + %s))) else s.%s)" % (ok, rr, ri, nt, rr, ri, nt, rr)
+                return "(if %s then %s else -1)" % (ok, nt), nc + rc + chk, [Eff(("whole", rr), new_reg, rr), Eff(("scalar", "io_pos"), "(if %s then s.io_pos + %s else s.io_pos)" % (ok, nt), "io_pos")]
             fail("%s: call of %s inside an expression" % (self.name, nm))
         if k == "UnaryExprOrTypeTraitExpr" and n.get("name") == "sizeof":
             at = n.get("argType", {}).get("qualType")
@@ -497,7 +570,9 @@ class Fn:
     def const(self, name):
         v = self.opts.get("consts", {}).get(name)
         if v is None:
-            fail("%s: constant %s not provided" % (self.name, name))
+            # resolved by translate_unit: the name is compiled against /repo's headers and printed (never guessed)
+            self.opts.setdefault("_missing_consts", set()).add(name)
+            return "0"
         return str(v)
 
     def wrapu(self, t, ty):
@@ -613,6 +688,8 @@ class Fn:
     def assign(self, lv, term, ind):
         if lv[0] == "scalar":
             return [self.upd(lv[1], term, ind)]
+        if lv[0] == "whole":
+            return [self.upd(lv[1], term, ind)]
         if lv[1].startswith("#") or lv[1].startswith("@"):
             fail("%s: store into a row of an array of rows / a global" % self.name)
         return [self.upd(lv[1], "s.%s.set (Int.toNat (%s)) (%s)" % (lv[1], lv[2], term), ind)]
@@ -650,11 +727,15 @@ class Fn:
                 bound.append((lv, "v%d" % k))
             k += 1
         for i, e in enumerate(effs):
-            out.append("%slet e%d : Int := %s" % (ind, i, e.term))
+            ety = "List Int" if e.lv[0] == "whole" else "Int"
+            out.append("%slet e%d : %s := %s" % (ind, i, ety, e.term))
+            if e.lv[0] == "elem":
+                out.append("%slet ei%d : Int := %s" % (ind, i, e.lv[2]))
         for lv, t in bound:
             out += self.assign(lv, t, ind)
         for i, e in enumerate(effs):
-            out += self.assign(e.lv, "e%d" % i, ind)
+            lv = ("elem", e.lv[1], "ei%d" % i) if e.lv[0] == "elem" else e.lv
+            out += self.assign(lv, "e%d" % i, ind)
         return out
 
     def stmt(self, n, ind):
@@ -682,13 +763,15 @@ class Fn:
                     if init:
                         fail("%s: initialised local array %s" % (self.name, nm))
                     continue
+                if nm in self.alias_locals:
+                    continue     # an alias of a struct parameter's member: bound statically
                 if d.get("storageClass") == "static":
                     continue     # a static local is an entry parameter (its value persists between calls); its initialiser is not re-run
                 if nm in self.ptr:
                     if init and not self.is_null(init[0]):
                         r, i, c, e = self.pexpr(init[0])
                         self.same_region(nm, r)
-                        out += self.with_effects(c, [(("scalar", lname(nm)), i)], e, ind)
+                        out += self.with_effects(c, [(("scalar", self.pix(nm)), i)], e, ind)
                     continue
                 ty = int_width(qt(d))
                 if ty is None:
@@ -713,7 +796,7 @@ class Fn:
                     fail("%s: compound assignment to a pointer expression" % self.name)
                 if op not in ("+", "-"):
                     fail("%s: pointer %s=" % (self.name, op))
-                nm = lname(sl["referencedDecl"]["name"])
+                nm = self.pix(sl["referencedDecl"]["name"])
                 t, c, e = self.rvalue(rhs)
                 return self.with_effects(c, [(("scalar", nm), "(s.%s %s %s)" % (nm, op, t))], e, ind)
             lv = self.lvalue(lhs)
@@ -753,6 +836,8 @@ class Fn:
             return out
         if k in ("ForStmt", "WhileStmt", "DoStmt"):
             return self.loop(n, ind)
+        if k == "SwitchStmt":
+            return self.switch(n, ind)
         if k == "ReturnStmt":
             out = []
             if n.get("inner"):
@@ -782,6 +867,88 @@ class Fn:
             return [self.upd("cnt", "true", ind)]
         fail("%s: unsupported statement %s" % (self.name, k))
 
+    def switch(self, n, ind):
+        """`switch (e) { case A: case B: stmts; break; … default: stmts }` -> an if-chain on the value of `e` (evaluated once).
+        Every group must end with `break` / `return` (or be the last one): fall-through from a group that has statements is rejected;
+        a `break` anywhere else inside the switch (it would leave the switch from inside an `if`) is rejected."""
+        inner = [c for c in n["inner"] if c.get("kind")]
+        scrut, body = inner[0], inner[-1]
+        if body.get("kind") != "CompoundStmt":
+            fail("%s: switch body is not a block" % self.name)
+        groups, cur = [], None     # (labels | None for default, [stmts])
+        for c in body.get("inner", []):
+            labels, first = [], c
+            while first.get("kind") in ("CaseStmt", "DefaultStmt"):
+                if first["kind"] == "CaseStmt":
+                    ce = first["inner"][0]
+                    v = ce.get("value") if ce.get("kind") == "ConstantExpr" else None
+                    if v is None:
+                        tv, cv, ev = self.rvalue(ce)
+                        if cv or ev:
+                            fail("%s: case label is not a constant" % self.name)
+                        v = tv
+                    labels.append(str(v))
+                    first = first["inner"][-1]
+                else:
+                    labels.append(None)
+                    first = first["inner"][-1]
+            if labels:
+                if cur is not None and cur[1] and not self.ends_group(cur[1]):
+                    fail("%s: switch group falls through into the next case" % self.name)
+                if cur is not None and not cur[1]:
+                    cur[0].extend(labels)
+                else:
+                    cur = [labels, []]
+                    groups.append(cur)
+            elif cur is None:
+                fail("%s: statement before the first case label" % self.name)
+            cur[1].append(first)
+        st, sc, se = self.rvalue(scrut)
+        out = self.checks(sc, ind)
+        out.append("%slet sw : Int := %s" % (ind, st))
+        if se:
+            out += self.with_effects([], [], se, ind)
+        default = None
+        chain = []
+        for labels, stmts in groups:
+            body_stmts = stmts[:-1] if stmts and stmts[-1].get("kind") == "BreakStmt" else stmts
+            for b in body_stmts:
+                self.no_switch_break(b)
+            if None in labels:
+                default = body_stmts
+                labels = [l for l in labels if l is not None]
+                if not labels:
+                    continue
+            chain.append((labels, body_stmts, None in labels))
+        out.append("%s%s s : %s.St :=" % (ind, self.bind(), self.name))
+        depth = ind + "  "
+        for labels, body_stmts, _ in chain:
+            cond = " ∨ ".join("sw = %s" % l for l in labels)
+            out.append("%sif %s then" % (depth, cond))
+            blk = {"kind": "CompoundStmt", "inner": body_stmts}
+            out += self.stmt(blk, depth + "    ") + ["%s    s" % depth]
+            out.append("%selse" % depth)
+            depth += "  "
+        if default is not None:
+            blk = {"kind": "CompoundStmt", "inner": default}
+            out += self.stmt(blk, depth + "  ") + ["%s  s" % depth]
+        else:
+            out.append("%s  s" % depth)
+        return out
+
+    def ends_group(self, stmts):
+        last = stmts[-1]
+        return last.get("kind") in ("BreakStmt", "ReturnStmt") or (last.get("kind") == "CompoundStmt" and last.get("inner") and self.ends_group(last["inner"]))
+
+    def no_switch_break(self, n):
+        k = n.get("kind")
+        if k == "BreakStmt":
+            fail("%s: `break` that leaves a switch from inside a nested statement" % self.name)
+        if k in ("ForStmt", "WhileStmt", "DoStmt", "SwitchStmt"):
+            return
+        for c in n.get("inner", []):
+            self.no_switch_break(c)
+
     def assignment(self, n, ind):
         lhs, rhs = n["inner"]
         # chained assignment a = b = e : the inner one first, then a = (the value stored in b)
@@ -791,6 +958,8 @@ class Fn:
         chained = srhs.get("kind") == "BinaryOperator" and srhs.get("opcode") == "="
         if ptr_elem(qt(lhs)) is not None:
             sl = self.skip(lhs)
+            if sl.get("kind") == "DeclRefExpr" and sl["referencedDecl"]["name"] in self.alias_locals:
+                return []
             if sl.get("kind") != "DeclRefExpr" or sl["referencedDecl"]["name"] not in self.ptr:
                 fail("%s: assignment to a pointer that is not a local variable" % self.name)
             nm = sl["referencedDecl"]["name"]
@@ -802,10 +971,10 @@ class Fn:
                 inner = self.assignment(srhs, ind)
                 r, i, c, e = self.pexpr(srhs["inner"][0])
                 self.same_region(nm, r)
-                return inner + self.assign(("scalar", lname(nm)), i, ind)
+                return inner + self.assign(("scalar", self.pix(nm)), i, ind)
             r, i, c, e = self.pexpr(rhs)
             self.same_region(nm, r)
-            return self.with_effects(c, [(("scalar", lname(nm)), i)], e, ind)
+            return self.with_effects(c, [(("scalar", self.pix(nm)), i)], e, ind)
         if chained:
             inner = self.assignment(srhs, ind)
             lv = self.lvalue(lhs)
@@ -836,6 +1005,20 @@ class Fn:
         nm = callee.get("referencedDecl", {}).get("name")
         if nm in self.ignore:
             return []
+        if nm in self.opts.get("io", {}) or nm in self.opts.get("assume_calls", {}):
+            t_, c_, e_ = self.rvalue(n)
+            return self.with_effects(c_, [], e_, ind)
+        if nm in ("memset", "__builtin_memset", "HDmemset"):
+            rd, idd, cd, ed = self.pexpr(n["inner"][1])
+            vt, vc, ve = self.rvalue(n["inner"][2])
+            nt, nc, ne = self.rvalue(n["inner"][3])
+            if ed or ve or ne:
+                fail("%s: side effect in memset arguments" % self.name)
+            if rd.startswith("#") or rd.startswith("@"):
+                fail("%s: memset of a read-only region" % self.name)
+            out = self.checks(cd + vc + nc + ["(0 : Int) ≤ %s" % nt, "0 ≤ %s ∧ %s + %s ≤ s.%s.length" % (idd, idd, nt, rd)], ind)
+            out.append(self.upd(rd, "(s.%s.take (Int.toNat (%s))) ++ (List.replicate (Int.toNat (%s)) ((%s) %% 256)) ++ (s.%s.drop (Int.toNat (%s + %s)))" % (rd, idd, nt, vt, rd, idd, nt), ind))
+            return out
         if nm in ("memcpy", "__builtin_memcpy", "HDmemcpy"):
             rd, idd, cd, ed = self.pexpr(n["inner"][1])
             rs_, is_, cs, es = self.pexpr(n["inner"][2])
@@ -889,6 +1072,14 @@ class Fn:
     def loop(self, n, ind):
         k = n["kind"]
         inner = n["inner"]
+        if k == "DoStmt":
+            c0 = inner[1]
+            while c0.get("kind") in ("ParenExpr", "ImplicitCastExpr", "ConstantExpr"):
+                c0 = c0["inner"][0]
+            if c0.get("kind") == "IntegerLiteral" and int(c0["value"]) == 0:
+                # `do { … } while (0)` (statement-like macros): the body, once
+                self.no_switch_break(inner[0])
+                return self.stmt(inner[0], ind)
         if k == "ForStmt":
             init, cond, inc, body = inner[0], inner[2], inner[3], inner[4]
         elif k == "WhileStmt":
@@ -983,11 +1174,21 @@ class Fn:
 
     def resolve_ptr_locals(self, body):
         assigns = []    # (pointer local, rhs node)
+        alias_assigns = []
 
         def walk(n):
             k = n.get("kind")
             if k == "VarDecl" and ptr_elem(qt(n)) is not None and not re.search(r"\[\d+\]$", base_type(qt(n))):
                 init = [c for c in n.get("inner", []) if c.get("kind")]
+                el_ = ptr_elem(qt(n))
+                if int_width(el_) is None and el_ != "void" and ptr_elem(el_) is None:
+                    # pointer to a struct: an ALIAS of (a member of) a struct parameter, bound by its single assignment
+                    self.alias_locals.add(n["name"])
+                    if init and not self.is_null(init[0]):
+                        alias_assigns.append((n["name"], init[0]))
+                    for c in n.get("inner", []):
+                        walk(c)
+                    return
                 self.ptr.setdefault(n["name"], None)
                 if n.get("storageClass") == "static":
                     self.statics.append(n["name"])
@@ -995,11 +1196,27 @@ class Fn:
                     assigns.append((n["name"], init[0]))
             if k == "BinaryOperator" and n.get("opcode") == "=" and ptr_elem(qt(n["inner"][0])) is not None:
                 l = self.skip(n["inner"][0])
-                if l.get("kind") == "DeclRefExpr" and not self.is_null(n["inner"][1]):
+                if l.get("kind") == "DeclRefExpr" and l["referencedDecl"]["name"] in self.alias_locals:
+                    if not self.is_null(n["inner"][1]):
+                        alias_assigns.append((l["referencedDecl"]["name"], n["inner"][1]))
+                elif l.get("kind") == "DeclRefExpr" and not self.is_null(n["inner"][1]):
                     assigns.append((l["referencedDecl"]["name"], n["inner"][1]))
             for c in n.get("inner", []):
                 walk(c)
         walk(body)
+        for nm, rhs in alias_assigns:
+            r = self.skip(rhs)
+            if r.get("kind") == "UnaryOperator" and r.get("opcode") == "&":
+                r = self.skip(r["inner"][0])
+            p0, path0 = self.member_chain(r) if r.get("kind") == "MemberExpr" else ((r["referencedDecl"]["name"], []) if r.get("kind") == "DeclRefExpr" and r["referencedDecl"]["name"] in self.structs else (None, None))
+            if p0 is None:
+                fail("%s: struct pointer %s is bound to something that is not (a member of) a struct parameter" % (self.name, nm))
+            if nm in self.aliases and self.aliases[nm] != (p0, path0):
+                fail("%s: struct pointer %s is bound to two different objects" % (self.name, nm))
+            self.aliases[nm] = (p0, path0)
+        for nm in self.alias_locals:
+            if nm not in self.aliases:
+                fail("%s: struct pointer %s is never bound" % (self.name, nm))
         changed = True
         while changed:
             changed = False
@@ -1016,16 +1233,20 @@ class Fn:
                 fail("%s: pointer %s points into two regions (%s, %s)" % (self.name, nm, self.ptr.get(nm), r))
 
     # ---------------------------------------------------------------- whole function
-    def scan_flags(self, n):
+    def scan_flags(self, n, in_switch=False):
         k = n.get("kind")
         if k == "ReturnStmt":
             self._rets.append(n)
-        if k in ("BreakStmt", "ContinueStmt"):
+        if k == "ContinueStmt" or (k == "BreakStmt" and not in_switch):
             self.has_brk = True
-        if k in ("GotoStmt", "SwitchStmt", "LabelStmt"):
+        if k in ("GotoStmt", "LabelStmt"):
             fail("%s: %s" % (self.name, k))
+        if k == "SwitchStmt":
+            in_switch = True
+        if k in ("ForStmt", "WhileStmt", "DoStmt"):
+            in_switch = False
         for c in n.get("inner", []):
-            self.scan_flags(c)
+            self.scan_flags(c, in_switch)
 
     def assigned_vars(self, body):
         out = set()
@@ -1063,9 +1284,11 @@ class Fn:
             elif int_width(el) is not None or el == "void":
                 self.ptr[nm] = lname(nm)
                 if nm in mutated:
-                    # the parameter itself is moved (buf++): an index field `<nm>` (entry value 0) into the region `<nm>_`
-                    fail("%s: pointer parameter %s is modified; not supported (copy it to a local in a wrapper or list it in opts['flat'])" % (self.name, nm))
-                self.ptr_is_param_region.add(nm)      # the region is registered at its first use (an unused array is no parameter)
+                    # the parameter itself is moved (buf++): region `<nm>` plus an index field `<nm>_i` that starts at 0
+                    self.pidx[nm] = lname(nm) + "_i"
+                    self.scalar(self.pidx[nm])
+                else:
+                    self.ptr_is_param_region.add(nm)      # the region is registered at its first use (an unused array is no parameter)
             elif ptr_elem(el) is not None:
                 fail("%s: parameter %s of type %s" % (self.name, nm, t))
             else:
@@ -1094,7 +1317,7 @@ class Fn:
                 fail("%s: pointer %s is never bound to a region" % (self.name, nm))
             if nm in self.statics and nm in self.ptr_is_param_region:
                 self.region(nm)          # static local array: an entry parameter
-            elif nm not in self.ptr_is_param_region and nm not in self.flat and lname(nm) not in self.local_regions:
+            elif nm not in self.ptr_is_param_region and nm not in self.flat and lname(nm) not in self.local_regions and nm not in self.pidx:
                 self.scalar(nm, entry=(nm in self.statics))
         def loops_(n, inloop):
             k = n.get("kind")
@@ -1171,6 +1394,35 @@ class Fn:
         return "\n".join(out), params
 
 
+def resolve_consts(repo, bdir, cfile, names, incs):
+    """values of enum constants / macros private to the .c file: a program that #includes the file is compiled against the library built
+    from the same tree and PRINTS them (nothing is copied by hand)"""
+    import tempfile
+    with tempfile.TemporaryDirectory() as tmp:
+        src = os.path.join(tmp, "k.c")
+        with open(src, "w") as f:
+            f.write('#include "%s"\n#include <stdio.h>\nint main(void){\n' % os.path.join(repo, cfile))
+            for nme in sorted(names):
+                f.write('  printf("%s %%lld\\n", (long long)(%s));\n' % (nme, nme))
+            f.write("  return 0;}\n")
+        exe = os.path.join(tmp, "k")
+        link = []
+        if bdir:
+            if "-asan-" in bdir:
+                link.append("-fsanitize=address,undefined")
+            link += [os.path.join(bdir, "bin/libmfhdf.a"), os.path.join(bdir, "bin/libhdf.a"), "-lz", "-ljpeg", "-lm"]
+        r = subprocess.run(["gcc", "-w", "-DH4_VERIF", ] + incs + [src, "-o", exe] + link, capture_output=True, text=True)
+        if r.returncode != 0:
+            # the .c file may define main itself or clash at link time: fall back to a translation unit that only includes the headers the file includes
+            fail("constants %s of %s cannot be compiled: %s" % (sorted(names), cfile, r.stderr[-800:]))
+        r = subprocess.run([exe], capture_output=True, text=True, env=dict(os.environ, ASAN_OPTIONS="detect_leaks=0"))
+        out = {}
+        for line in r.stdout.splitlines():
+            a, b = line.split()
+            out[a] = int(b)
+        return out
+
+
 def translate_unit(repo, bdir, unit, cfile, fns, opts=None):
     opts = dict(opts or {})
     opts["cfile"] = cfile
@@ -1193,6 +1445,16 @@ def translate_unit(repo, bdir, unit, cfile, fns, opts=None):
         ast = clang_ast(os.path.join(repo, cfile), fn, incs)
         f = Fn(ast, unit, fo)
         txt, params = f.translate()
+        missing = fo.pop("_missing_consts", None)
+        if missing:
+            fo["consts"] = dict(fo.get("consts", {}), **resolve_consts(repo, bdir, cfile, missing, incs))
+            f = Fn(ast, unit, fo)
+            txt, params = f.translate()
+            if fo.get("_missing_consts"):
+                fail("%s: constants %s could not be resolved" % (fn, sorted(fo["_missing_consts"])))
+        for long_, short_ in fo.get("abbrev", {}).items():
+            txt = txt.replace(long_ + "_", short_ + "_")
+            params = [q.replace(long_ + "_", short_ + "_") for q in params]
         out.append(txt)
         sigs[fn] = params
     out.append("end H4.Gen.Fn.%s\n" % unit)
